@@ -12,7 +12,7 @@ definitions, no yield / global / nonlocal, and no return inside a loop, try or w
 import ast
 import copy
 
-MAX_STMTS = 14
+MAX_STMTS = 30
 # helpers whose contract is verified by a rule of its own and used as a summary at the call sites: never inlined
 KEEP = {"__nonulldata", "__check_ensemble_data"}
 
